@@ -458,7 +458,7 @@ def rich_classes(content) -> set:
         if tag == "c":
             return sympy.Float(float(Fraction(e[1])))
         if tag == "m":
-            return {"pi": sympy.pi, "e": sympy.E}[e[1]]
+            return {"pi": sympy.pi, "e": sympy.E, "tau": 2 * sympy.pi}[e[1]]
         if tag == "neg":
             return -sym(e[1], names)
         a, b = sym(e[1], names), sym(e[2], names)
@@ -499,7 +499,7 @@ def eval_float(e, xs) -> float:
     if tag == "c":
         return float(Fraction(e[1]))
     if tag == "m":
-        return {"pi": math.pi, "e": math.e}[e[1]]
+        return {"pi": math.pi, "e": math.e, "tau": math.tau}[e[1]]
     if tag == "neg":
         return -eval_float(e[1], xs)
     a, b = eval_float(e[1], xs), eval_float(e[2], xs)
